@@ -29,21 +29,29 @@ def register(claim, not_yet):
           'DTCWTForward, and by comparing the real module with dtcwt.Transform2d on the 20 named pairs and on integer filters.' + TIE + BRK,
           'Lean 4 refinement theorems for the level-1 filters + exact Q(sqrt2) correspondence + numpy dtcwt oracle', 'DESIGN.md §4 C03', 'level >= 2 refinement is correspondence/oracle-decided: partial.')
     claim('C04',
-          'Proved: c2q(q2c(y)) = y on every even-sized image from 2*s*s = 1 alone, and the even-extension rule (odd sizes gain one repeated row/column). The filter-bank part of PR (level 1 '
-          'symmetric biorthogonal pair, level >= 2 q-shift pair) is staged; it is decided by DTCWTInverse(DTCWTForward(x)) on the real code for all 20 named pairs, J up to 5, sizes 2..44 '
-          'including odd and non-multiples of 4, plus the exact correspondence of analysis and synthesis ops.' + TIE + BRK,
-          'Lean 4 theorems (quad/complex round trip, extension) + exact correspondence + round-trip oracle on all 20 pairs', 'DESIGN.md §4 C04', 'filter-bank PR is oracle-decided: partial.')
+          'Proved: c2q(q2c(y)) = y on every even-sized image from 2*s*s = 1 alone; the even-extension rule; LEVEL 1 in full: filtering with a symmetric odd-length filter commutes with the '
+          'half-sample symmetric extension at every integer position (xt_colfilter), hence for every pair of symmetric odd analysis filters and synthesis filters meeting the finite condition '
+          'PR1, colfilter g0 (colfilter h0 x) + colfilter g1 (colfilter h1 x) = x for columns of every length (colfilter_pr) and inv_j1(fwd_j1(x)) = x for the implementation model (row/column '
+          'filtering with prep_filt buffers, q2c/c2q packing, crop rule) on every even-sized image (level1_pr); the shipped legall table meets PR1 exactly over Q. The q-shift levels (J >= 2) '
+          'and the non-dyadic tables (PR1 to 2^-40, C18) are decided by DTCWTInverse(DTCWTForward(x)) on the real code for all 20 named pairs constructed by name, J up to 5, sizes 2..44 incl. '
+          'odd and non-multiples of 4, with the reference package own round-trip error as yardstick, plus the exact correspondence of analysis and synthesis ops.' + TIE + BRK,
+          'Lean 4 theorems (level-1 perfect reconstruction of the implementation model, quad/complex round trip, extension) + exact correspondence + round-trip oracle on all 20 pairs', 'DESIGN.md §4 C04',
+          'level >= 2 (q-shift) filter-bank PR is oracle-decided: partial.')
     claim('C05',
           'Proved for all lengths, filters, cotangents: strided correlation and transposed convolution are mutual adjoints; AFB1D.backward in mode zero (sfb1d + crop) satisfies '
-          '<forward x, g> = <x, backward g>. The other modes are decided by the exact correspondence of the four autograd Functions backward passes (all requires_grad masks) and by the Jacobian '
+          '<forward x, g> = <x, backward g>, and in periodization for every length N >= 1 (odd included: the gradient of the repeated last sample is folded back) and even L <= N + N%2 '
+          '(afb_per_adjoint, from the circular transpose theorem). The padded modes and 2-D are decided by the exact correspondence of the four autograd Functions backward passes (all requires_grad masks) and by the Jacobian '
           'oracle J^T g on the four modules; the non-adjoint backward passes of symmetric/reflect/periodic (pinned by baseline tests) and short periodization are known findings with '
           'decide-checked witnesses.' + TIE + BRK,
           'Lean 4 adjointness theorems (inner-product identities) + exact autograd correspondence + Jacobian oracle', 'DESIGN.md §4 C05')
     claim('C06',
-          'Proved: q2c and c2q are mutual adjoints on every image; the backward passes are by construction the opposite transform with the same buffers (level 1) or exchanged trees (level >= 2). '
-          'That these are the adjoints needs the table identities of C18 and is staged; it is decided by the exact correspondence of FWD_J1/FWD_J2PLUS/INV_J1/INV_J2PLUS.backward through '
-          'torch.autograd (all layouts, skip flags, grad masks) and by the Jacobian oracle on both modules for the 20 named pairs and structured integer filters.' + TIE + BRK,
-          'Lean 4 adjointness theorem for q2c/c2q + exact autograd correspondence + Jacobian oracle', 'DESIGN.md §4 C06', 'filter adjointness is oracle-decided: partial.')
+          'Proved: q2c and c2q are mutual adjoints on every image; colfilter with a symmetric odd-length filter is self-adjoint on columns of every length (its matrix K(i,k) = sum_d c(d)[sym(i+d)=k] '
+          'is symmetric: colfilter_self_adjoint, Kf_symm), also row- and column-wise on images; hence FWD_J1.backward is the adjoint of fwd_j1 for the implementation models on every even-sized '
+          'image, every low-pass and band cotangent (fwdJ1_backward_adjoint). The backward passes are by construction the opposite transform with the same buffers (level 1) or exchanged trees '
+          '(level >= 2); that the level >= 2 passes are adjoints (tree b = reverse of tree a, C18) is decided by the exact correspondence of FWD_J1/FWD_J2PLUS/INV_J1/INV_J2PLUS.backward through '
+          'torch.autograd (all layouts, skip flags, grad masks) and by the Jacobian oracle on both modules for the 20 named pairs and structured integer filters, incl. losses over subsets of the '
+          'outputs and repeated pull-backs through one retained graph.' + TIE + BRK,
+          'Lean 4 adjointness theorems (q2c/c2q, symmetric colfilter, level-1 backward pass) + exact autograd correspondence + Jacobian oracle', 'DESIGN.md §4 C06', 'level >= 2 adjointness is oracle-decided: partial.')
     claim('C07',
           'Proved for all sizes: correlation (any stride/dilation), index-vector padding and zero padding are linear, hence afb1d in symmetric mode is; the grouped convolution with the code weight '
           'cat([h0,h1]*C), groups=C applies the same two one-channel operators to every channel for every C, and raises iff a channel does (afb1dT_per_channel). All seven transforms are '
@@ -52,7 +60,8 @@ def register(claim, not_yet):
     claim('C10',
           'Proved for arbitrary band contents, all band lengths and filter lengths: sfb1d in modes zero/symmetric/reflect/periodic (two transposed stride-2 convolutions cropped by L-2) equals '
           'pywt.idwt; periodization synthesis (one fold + roll) equals pywt.idwt whenever L-2 <= 2n (the complement is the known finding); the J-level DWT1DInverse (un-pad rule, None levels) equals '
-          'pywt.waverec by induction on the pyramid. The 2-D lifting is decided by the exact correspondence (sfb1d, SFB1D, SFB2D, sfb2d, DWT1DInverse, '
+          'pywt.waverec, and the J-level 2-D DWTInverse (one level = pywt.idwt2 with (column wavelet, row wavelet); un-pad rule on both axes, None levels) equals pywt.waverec2, by induction on the '
+          'pyramid. The C-channel lifting in 2-D is decided by the exact correspondence (sfb1d, SFB1D, SFB2D, sfb2d, DWT1DInverse, '
           'DWTInverse with None) and by the pywt.waverec/waverec2 oracle on arbitrary pyramids; short periodization is a known finding.' + TIE + BRK,
           'Lean 4 refinement theorem (synthesis = pywt idwt) + exact correspondence + pywt oracle on arbitrary pyramids', 'DESIGN.md §4 C10')
     claim('C11',
